@@ -58,6 +58,9 @@ def check(model: Model, rep: Report, tier: str):
     with rep.isolated():
         instance_state_rule(model, rep, "C10.T6", "a duration configuration belongs to its registry: the table of a duration registry is bound per instance, not a class-level "
                             "container shared by all registries", keep=lambda c: c.module.relpath.endswith("registry_duration.py"))
+    from .common import idle_wait_channel_rule
+    with rep.isolated():
+        idle_wait_channel_rule(model, rep, "C10.T14")
     from .c01 import r5 as _r5, r6 as _r6
     with rep.isolated():
         share_rule(rep, model, _r5, "C10.T13", "an operation added without relation waits for the LATEST operation on any of its channels: the leaf query searches the whole graph, deepest "
